@@ -279,8 +279,14 @@ ADDED = {
            "the earlier country are compared with those of its run alone.",
     "C15": " Cases also go through one long-lived runner, with a population override, with a failing country, with a code that is not in the table; "
            "the caller's list must be left as it was; one aggregate (DJI, MUS, KOR, PRK) runs with nothing stubbed, results returned and every table saved.",
+    "C08": " The seaweed series go through Parameters.set_seaweed_params with a growth table longer than the horizon; fish may be switched off; demand "
+           "schedules include the ones that never stop; the recipes of one horizon run in one process with the delays varying fastest.",
+    "C09": " Inputs include a harvest without cropland on record and tiny cropland shares; the harvest table is saved the way a run saves it and the "
+           "series must be what it was before; the recipes of one horizon run in one process (state kept by a supply class shows).",
+    "C10": " Anchors also cover the conversions the result extraction does by hand (milk, meat, crops under the four fat / protein switch settings, a "
+           "generic food whose LP variable is not in kcals), quantities above the need, one-month series, populations that are not whole numbers.",
     "C18": " On corpus runs the threshold is the configured one, the meat the feed round is really given is at or above the no-feed round's, the "
-           "running total a round is told is the cumulative sum of its monthly series, and what the final round is charged is what the adjustment returned.",
+           "running total a round is told is the cumulative sum of its monthly series, and what the final round is charged is what the adjustment returned; every round is given the same harvest.",
 }
 for _k, _v in ADDED.items():
     CHECKS[_k]["text"] += _v
